@@ -46,6 +46,45 @@ impl Sub<UBig> for UBig { type Output = UBig;
     #[verifier::external_body]
     fn sub(self, rhs: UBig) -> UBig { unimplemented!() }
 }
+// TRUSTED (integer/src/add_ops.rs forward_ibig_ubig / forward_ubig_ibig_binop_to_repr): mixed-sign + and - are exact,
+// the result is an IBig (never panics)
+impl AddSpecImpl<UBig> for IBig {
+    open spec fn obeys_add_spec() -> bool { true }
+    open spec fn add_req(self, rhs: UBig) -> bool { true }
+    open spec fn add_spec(self, rhs: UBig) -> IBig { ibig_of(self.v() + rhs.v()) }
+}
+impl Add<UBig> for IBig { type Output = IBig;
+    #[verifier::external_body]
+    fn add(self, rhs: UBig) -> IBig { unimplemented!() }
+}
+impl SubSpecImpl<UBig> for IBig {
+    open spec fn obeys_sub_spec() -> bool { true }
+    open spec fn sub_req(self, rhs: UBig) -> bool { true }
+    open spec fn sub_spec(self, rhs: UBig) -> IBig { ibig_of(self.v() - rhs.v()) }
+}
+impl Sub<UBig> for IBig { type Output = IBig;
+    #[verifier::external_body]
+    fn sub(self, rhs: UBig) -> IBig { unimplemented!() }
+}
+impl SubSpecImpl<IBig> for UBig {
+    open spec fn obeys_sub_spec() -> bool { true }
+    open spec fn sub_req(self, rhs: IBig) -> bool { true }
+    open spec fn sub_spec(self, rhs: IBig) -> IBig { ibig_of(self.v() - rhs.v()) }
+}
+impl Sub<IBig> for UBig { type Output = IBig;
+    #[verifier::external_body]
+    fn sub(self, rhs: IBig) -> IBig { unimplemented!() }
+}
+// TRUSTED (integer/src/sign.rs `impl Mul<Sign> for UBig`): attaches the sign, result IBig
+impl MulSpecImpl<Sign> for UBig {
+    open spec fn obeys_mul_spec() -> bool { true }
+    open spec fn mul_req(self, rhs: Sign) -> bool { true }
+    open spec fn mul_spec(self, rhs: Sign) -> IBig { ibig_of(self.v() * sgn(rhs)) }
+}
+impl Mul<Sign> for UBig { type Output = IBig;
+    #[verifier::external_body]
+    fn mul(self, rhs: Sign) -> IBig { unimplemented!() }
+}
 // TRUSTED (integer/src/convert.rs): From<UBig> for IBig keeps the value
 impl FromSpecImpl<UBig> for IBig {
     open spec fn obeys_from_spec() -> bool { true }
